@@ -19,7 +19,7 @@ PROPS = {
         "min_nontrivial": {"quick": 2000, "thorough": 20000},
         "must_observe": ["log:computed_operator_programs"],
         "rule": "Typed random programs over the classic operator set (opcodes 1-36 without 29/30; non-canonical ints, leading-zero paths, ((X) . raw) forms, recursion/accumulator loops, unknown multi-byte opcodes, softfork guards, structural mutations) and "
-                "directed interpreter corner cases, programs built at run time whose operator atom (and an inner quote) is produced by substr / concat / arithmetic for every classic opcode (heap atoms, views, computed small integers instead of inline literals), run by the real interpreter with default flags at budget 5e7 and at {C, C-1, C+1, random}; every logged run is replayed by pymon/refclvm.py (independent interpreter after the historical Python clvm with the named "
+                "directed interpreter corner cases (incl. zero-length atoms that are not the inline nil -- empty substring views, empty concat -- flowing into i/not/any/all/=/l/strlen/+/sha256/concat/a/c/f/logand/substr/>/>s), programs built at run time whose operator atom (and an inner quote) is produced by substr / concat / arithmetic for every classic opcode (heap atoms, views, computed small integers instead of inline literals), run by the real interpreter with default flags at budget 5e7 and at {C, C-1, C+1, random}; every logged run is replayed by pymon/refclvm.py (independent interpreter after the historical Python clvm with the named "
                 "adapters div-floor, softfork-guard, u64-cost) and success/failure, cost and result bytes are compared. The reference must first reproduce the repository's 6000+ op-test vectors. Programs that execute an opcode assigned after the classic set are skipped. "
                 "Disagreements that exist only under a rule known from memory (`recalled`: nil terminator of the inner list in ((X . t)...), as_iter failure on improper raw operand lists) are reported as UNCORROBORATED-DIVERGENCE, not as violations. "
                 "Non-trivial: reference succeeds and applied >=2 operators.",
@@ -40,8 +40,8 @@ PROPS = {
         "variants": REL,
         "budget_s": (30, 300),
         "min_nontrivial": {"quick": 500, "thorough": 5000},
-        "must_observe": ["variant_reencoded", "variant_history", "history_failed_run_with_validated_points", "history_many_substring_views", "reclamation_programs"],
-        "rule": PROG + "and directed operator programs over an env of non-canonical/boundary atoms. Baseline = fresh allocator, new_atom storage. Variants: every atom "
+        "must_observe": ["variant_reencoded", "variant_history", "history_failed_run_with_validated_points", "history_many_substring_views", "reclamation_programs", "path_atoms_of_every_inline_bit_length"],
+        "rule": PROG + "and directed operator programs over an env of non-canonical/boundary atoms, environment-path programs of every bit length 1..27 over a 30-deep environment in which every path exists, the directed reclamation programs. Baseline = fresh allocator, new_atom storage. Variants: every atom "
                 "re-encoded as forced-heap / substring view / concat result (incl. opcode, keyword, path and terminator atoms and the zero-length heap atom); allocator "
                 "pre-populated with random nodes, skewed table shapes (thousands of substring views, pairs or inline atoms, one huge atom), earlier successful and failed runs, runs that validated BLS points, add_validated_g1/g2, checkpoints; re-runs in the "
                 "same allocator; plain repeats. Result tree hash, cost and error variant+message must equal the baseline (limit errors excluded). Non-trivial: >=1 variant compared "
@@ -85,7 +85,7 @@ PROPS = {
         "budget_s": (30, 300),
         "min_nontrivial": {"quick": 500, "thorough": 5000},
         "must_observe": ["guards_entered_in_successful_aware_runs", "successful_runs_with_4byte_secp_opcode"],
-        "rule": PROG + "(softfork profile: guards for ext 0/1 with exact measured declared cost, nested/sequential/malformed guards, unknown extensions, valid and corrupted secp triples behind the 4-byte opcodes) "
+        "rule": PROG + "(softfork profile: guards for ext 0/1 with exact measured declared cost, nested/sequential/malformed guards, unknown extensions, valid and corrupted secp triples behind the 4-byte opcodes, extension-only opcodes evaluated after a guard (or a guard tower) has completed in the same run) "
                 "run on ChiaDialect(F) and on a harness HidingDialect(F) that maps every extension to Default and routes the two 4-byte secp opcodes to op_unknown; F non-strict without NEW_COST_MODEL. "
                 "When the aware run succeeds the hiding run must give the same result, cost and atom/pair/heap counts. Non-trivial: aware run succeeded and entered >=1 guard or contains a 4-byte secp opcode.",
         "assumptions": COMMON_ASSUMPTIONS + ["HidingDialect (harness) is the model of an extension-unaware node"],
